@@ -15,10 +15,10 @@ import (
 func init() { checks["c07"] = runC07 }
 
 type c07Dgram struct {
-	Template string `json:"template"`
-	From     string `json:"from"` // A A' B
+	Template string   `json:"template"`
+	From     string   `json:"from"` // A A' B
 	Muts     []string `json:"mutations"`
-	Hex      string `json:"hex"`
+	Hex      string   `json:"hex"`
 }
 
 func richRules(r *vh.Rng) []*vh.IE {
